@@ -239,6 +239,9 @@ func (t *Tracker) Expand(tasks []requests.SigningTask) []ExpMsg {
 }
 
 func (t *Tracker) onAppend(m storage.Message, by int) {
+	if by < 0 {
+		return // adversarial entries are not part of the reference bookkeeping
+	}
 	switch m.Event {
 	case string(sif.EventSigningStart):
 		var req requests.SigningBatchProposalStartRequest
